@@ -29,12 +29,6 @@ def demo : Graph := [(0, [1, 2, 1]), (1, [0]), (2, [2, 7]), (3, [])]
 /-- the same without the duplicate neighbour -/
 def demo2 : Graph := [(0, [1, 2]), (1, [0]), (2, [2, 7]), (3, [])]
 
-theorem demo2_adjNodup : AdjNodup demo2 := by
-  intro v
-  simp only [demo2, adj_cons, adj_nil]
-  repeat' split
-  all_goals decide
-
 /-! ## `reachable` -/
 
 /-- `reachable` always answers, and answers `True` exactly when the start vertex is a key and
@@ -110,7 +104,11 @@ theorem allPaths_spec (g : Graph) (s : Nat) :
 example : findAllPaths demo2 0 = some [[0], [0, 1], [0, 2], [0, 2, 7]] ∧
     findAllPaths demo2 7 = some [[7]] := by decide
 
-example : WFG demo2 ∧ AdjNodup demo2 := ⟨by decide, demo2_adjNodup⟩
+example : WFG demo2 ∧ AdjNodup demo2 := by
+  refine ⟨by decide, fun v => ?_⟩
+  simp only [demo2, adj_cons, adj_nil]
+  repeat' split
+  all_goals decide
 
 /-- without `AdjNodup` a path can be listed twice (Python does the same) -/
 example : findAllPaths demo 0 = some [[0], [0, 1], [0, 2], [0, 2, 7], [0, 1]] := by decide
@@ -125,7 +123,7 @@ theorem longestPaths_spec (g : Graph) (s : Nat) :
   findLongestPaths_correct g s
 
 /-- the same, relative to the answer of `find_all_paths` -/
-theorem longestPaths_spec' (g : Graph) (s : Nat) :
+theorem longestPaths_relative (g : Graph) (s : Nat) :
     ∃ l all, findLongestPaths g s = some l ∧ findAllPaths g s = some all ∧
       ∀ p, p ∈ l ↔ p ∈ all ∧ ∀ q ∈ all, p <+: q → q = p := by
   obtain ⟨l, e, hl, _⟩ := findLongestPaths_correct g s
